@@ -10,21 +10,7 @@
   down to the side it lies along before any quadrant is built. The lemmas hold for corners
   within +-4096, sides up to 4096 (`RR.rect`) and probed points within +-8192 (`RR.probe`).
 -/
-import EG.Lemmas.CheckedRRect
-namespace EG.DS
-open EG.Chk
-/-- stroke-area rectangle, arbitrary `u32` radii -/
-def xrrect (r : RoundedRect) : Prop := xrect r.rect ∧ CornerRadii.InU32 r.corners
-instance (r : RoundedRect) : Decidable (xrrect r) := by unfold xrrect; exact inferInstance
-theorem xrect_RR {r : Rect} (h : xrect r) : RR.rect r := by
-  obtain ⟨⟨⟨_, _⟩, ⟨_, _⟩⟩, ⟨_, _⟩⟩ := h
-  unfold xsize at *
-  unfold RR.rect; omega
-theorem xpt_RR {p : Pt} (h : xpt p) : RR.probe p := by
-  obtain ⟨⟨_, _⟩, ⟨_, _⟩⟩ := h
-  unfold RR.probe; omega
-end EG.DS
-
+import EG.Lemmas.CheckedDSMore
 namespace EG.C08
 open EG EG.Chk
 
